@@ -175,6 +175,27 @@ fn gen_input_doc(rng: &mut Rng) -> String {
                 let k = *rng.pick(KEYS);
                 JV::rec_insert(&mut f, k, gen_jv(rng, 0));
             }
+            // sometimes function-valued members: mostly self-contained, sometimes reading a name
+            // that is bound nowhere (declaring such a value as an output must fail); alone, in
+            // pairs whose bodies have the same shape, nested in a list
+            if rng.chance(1, 4) {
+                let fobj = |src: &str| JV::Rec(vec![("__blots_function".to_string(), JV::Str(src.to_string()))]);
+                let i = rng.usize_below(crate::c19model::FN_OK.len());
+                let ok = fobj(crate::c19model::FN_OK[i]);
+                let bad = fobj(crate::c19model::FN_BAD[i]);
+                let k1 = *rng.pick(&["a", "k", "iffy", "p"]);
+                let k2 = *rng.pick(&["b", "x1", "q", "android"]);
+                match rng.below(5) {
+                    0 => JV::rec_insert(&mut f, k1, ok),
+                    1 => {
+                        JV::rec_insert(&mut f, k1, ok);
+                        JV::rec_insert(&mut f, k2, bad);
+                    }
+                    2 => JV::rec_insert(&mut f, k1, JV::List(vec![ok, bad])),
+                    3 => JV::rec_insert(&mut f, k2, bad),
+                    _ => JV::rec_insert(&mut f, k1, JV::List(vec![ok.clone(), JV::Num(1.0), ok])),
+                }
+            }
             let v = JV::Rec(f);
             render_doc(rng, &v)
         }
